@@ -105,13 +105,22 @@ func solve(workdir, name, query string, timeoutS int, needTwo bool) SolverResult
 	}
 	ch := make(chan res, len(allSolvers))
 	var wg sync.WaitGroup
-	for _, sp := range allSolvers {
+	for si, sp := range allSolvers {
 		wg.Add(1)
-		go func(sp solverSpec) {
+		go func(si int, sp solverSpec) {
 			defer wg.Done()
+			if si >= 2 && !needTwo {
+				// the third solver joins the race only if the first two have not answered quickly
+				select {
+				case <-ctx.Done():
+					ch <- res{sp.name, "cancelled", "", 0}
+					return
+				case <-time.After(1500 * time.Millisecond):
+				}
+			}
 			v, out, t := runOne(ctx, sp, file, timeoutS)
 			ch <- res{sp.name, v, out, t}
-		}(sp)
+		}(si, sp)
 	}
 	go func() { wg.Wait(); close(ch) }()
 	final := SolverResult{Verdict: "unknown", Others: map[string]string{}}
